@@ -476,9 +476,66 @@ def run(ctx):
     binary = vlib.build_harness("h_any")
     workers = max(1, min(8, vlib.NPROC // 2))
     hist = {}
-    t0 = time.time()
+    acc = {"prop_bad": [], "corr_bad": [], "mech": [], "ran": 0, "notrun": 0, "ops": 0, "style": {}, "distinct": set(),
+           "nontrivial": set(), "samples": [], "tgen": 0.0, "trun": 0.0, "skipped_blocks": []}
 
-    # ---- batch A: corpus, full alphabet to length 2, reduced alphabet to length 3, a few random sequences
+    def process(block_name, cases):
+        """cases: list of (line, expected masked output, style); run, compare, account, forget"""
+        if not cases:
+            return
+        if acc["prop_bad"] or acc["corr_bad"]:
+            acc["skipped_blocks"].append("%s (%d cases)" % (block_name, len(cases)))
+            return
+        t1 = time.time()
+        lines = [c[0] for c in cases]
+        hout, dout, logs, lsan = run_both(binary, lines, workers)
+        acc["trun"] += time.time() - t1
+        flagged = False
+        acc["samples"].append(lines[len(lines) // 2])
+        for idx, ((line, want, style), h, d) in enumerate(zip(cases, hout, dout)):
+            if h is None:
+                acc["notrun"] += 1
+                continue
+            acc["ran"] += 1
+            acc["style"][style] = acc["style"].get(style, 0) + 1
+            hl = hash(line)
+            acc["distinct"].add(hl)
+            ops = line.split()[3:]
+            acc["ops"] += len(ops)
+            # non-trivial: at least two operations, one of which (after the first) is not a construction
+            if len(ops) >= 2 and any(o[:2] in ("ca", "aa", "av", "sw", "rs", "pk", "vc", "ds", "pc") for o in ops[1:]):
+                acc["nontrivial"].add(hl)
+            if h == d and mask(h) == want:
+                continue
+            if mask(h) == mask(d) == want:
+                acc["mech"].append((line, h, d))
+                continue
+            for kind, key, what in classify(line, h, d, want):
+                (acc["prop_bad"] if kind == "prop" else acc["corr_bad"]).append((key, what, line, h, d, want, logs.get(idx, "")))
+                flagged = flagged or kind == "prop"
+        if lsan and not flagged:
+            k = max(logs) if logs else 0
+            acc["prop_bad"].append(("crash:lsan", "LeakSanitizer reported a leak at process exit although every sequence balanced its allocations",
+                                    lines[min(k, len(lines) - 1)], "crash:lsan", "", "", logs.get(k, "")))
+
+    def enum_block(name, maxlen, tags, full, minlen=1):
+        t1 = time.time()
+        seqs = enumerate_seqs(maxlen, tags, full, hist, minlen)
+        acc["tgen"] += time.time() - t1
+        n = len(seqs)
+        process(name, [(l, w, name) for l, w in seqs])
+        return n
+
+    def random_block(g, first, count):
+        t1 = time.time()
+        cases = []
+        for i in range(count):
+            ln = random_seq(g, first + i, 40, hist)
+            cases.append((ln, spec_line(ln), "random"))
+        acc["tgen"] += time.time() - t1
+        process("random", cases)
+
+    # ---- first: corpus, full alphabet to length 2, reduced alphabet to length 3, some random sequences
     corpus = []
     cp = vlib.VERIF / "corpus" / "C20" / "cases.txt"
     if cp.exists():
@@ -487,78 +544,38 @@ def run(ctx):
         sp = Spec()
         for tok in ln.split()[3:]:
             sp.apply(tok, hist)
+    process("corpus", [(ln, spec_line(ln), "corpus") for ln in corpus])
     others = ["s", "m", "i", "d"]
-    extra = others[ctx.seed % 4]
-    tagsets_a = [["p", extra]]
-    batch_a = [(ln, spec_line(ln), "corpus") for ln in corpus]
-    full2 = enumerate_seqs(2, TAGS, True, hist)
-    batch_a += [(l, w, "full-alphabet<=2") for l, w in full2]
-    red3 = enumerate_seqs(3, tagsets_a[0], False, hist)
-    batch_a += [(l, w, "reduced<=3[p,%s]" % extra) for l, w in red3]
+    rot = others[ctx.seed % 4:] + others[:ctx.seed % 4]
+    n_full2 = enum_block("full-alphabet<=2", 2, TAGS, True)
+    n_red3 = enum_block("reduced<=3[p,%s]" % rot[0], 3, ["p", rot[0]], False)
     g = ctx.gen("any")
     nrand_a = 60
-    for i in range(nrand_a):
-        ln = random_seq(g, i, 40, hist)
-        batch_a.append((ln, spec_line(ln), "random"))
+    random_block(g, 0, nrand_a)
 
-    # ---- batch B: reduced alphabet at length 4 (thorough: for every companion type, and length 5 with the probe only), random
-    batch_b = []
-    exhaustive_rule = []
+    # ---- then the large enumerations (skipped once a failure is known: the replay is already concrete)
+    rules = []
+    companions = rot
+    n4 = 0
+    for o in companions:
+        if o != rot[0]:
+            enum_block("reduced<=3[p,%s]" % o, 3, ["p", o], False)
+        n4 += enum_block("reduced=4[p,%s]" % o, 4, ["p", o], False, minlen=4)
+    rules.append("reduced alphabet, for each companion type T in {%s}, held types {probe,T}: all sequences of length 1..4 (%d of length 1..3 for the "
+                 "first T, %d of length 4 in total)" % (", ".join(TAG_NAME[o] for o in companions), n_red3, n4))
     if ctx.quick():
-        red4 = enumerate_seqs(4, tagsets_a[0], False, hist, minlen=4)
-        batch_b += [(l, w, "reduced=4[p,%s]" % extra) for l, w in red4]
-        exhaustive_rule.append("reduced alphabet, held types {probe,%s}: all %d sequences of length 1..3 and all %d of length 4" % (TAG_NAME[extra], len(red3), len(red4)))
         nrand_b = 340
     else:
-        n4 = 0
-        for o in others:
-            if o != extra:
-                r3 = enumerate_seqs(3, ["p", o], False, hist)
-                batch_b += [(l, w, "reduced<=3[p,%s]" % o) for l, w in r3]
-            r4 = enumerate_seqs(4, ["p", o], False, hist, minlen=4)
-            n4 += len(r4)
-            batch_b += [(l, w, "reduced=4[p,%s]" % o) for l, w in r4]
-        r5 = enumerate_seqs(5, ["p"], False, hist, minlen=5)
-        batch_b += [(l, w, "reduced=5[p]") for l, w in r5]
-        exhaustive_rule.append("reduced alphabet: for each companion type T in {string, matrix, int, double}, held types {probe,T}: all sequences of length 1..4 "
-                               "(%d of length 4 in total); held type {probe}: all %d sequences of length 5" % (n4, len(r5)))
+        n5 = enum_block("reduced=5[p]", 5, ["p"], False, minlen=5)
+        rules.append("reduced alphabet, held type {probe}: all %d sequences of length 5" % n5)
+        n3f = enum_block("full-alphabet=3", 3, TAGS, True, minlen=3)
+        rules.append("full alphabet: all %d sequences of length 3" % n3f)
         nrand_b = 6000
-    for i in range(nrand_b):
-        ln = random_seq(g, nrand_a + i, 40, hist)
-        batch_b.append((ln, spec_line(ln), "random"))
-    tgen = time.time() - t0
+    random_block(g, nrand_a, nrand_b)
 
-    prop_bad, corr_bad = [], []
-    crash_logs = {}
-    ran = []
-    style_hist = {}
-    notrun = 0
-    mech = []       # implementation and model differ only in copy/move counts or the caller's value object: not promised
-    for name, batch in (("A", batch_a), ("B", batch_b)):
-        if name == "B" and (prop_bad or corr_bad):
-            ctx.notes.append("failures in the first batch (%d cases): the large enumeration (%d cases) was skipped" % (len(batch_a), len(batch_b)))
-            break
-        lines = [b[0] for b in batch]
-        hout, dout, logs, lsan = run_both(binary, lines, workers)
-        flagged = False
-        for idx, ((line, want, style), h, d) in enumerate(zip(batch, hout, dout)):
-            if h is None:
-                notrun += 1
-                continue
-            ran.append(line)
-            style_hist[style] = style_hist.get(style, 0) + 1
-            if h == d and mask(h) == want:
-                continue
-            if mask(h) == mask(d) == want:
-                mech.append((line, h, d))
-                continue
-            for kind, key, what in classify(line, h, d, want):
-                (prop_bad if kind == "prop" else corr_bad).append((key, what, line, h, d, want, logs.get(idx, "")))
-                flagged = flagged or kind == "prop"
-        if lsan and not flagged:
-            k = max(logs) if logs else 0
-            prop_bad.append(("crash:lsan", "LeakSanitizer reported a leak at process exit although every sequence balanced its allocations",
-                             lines[min(k, len(lines) - 1)], "crash:lsan", "", "", logs.get(k, "")))
+    prop_bad, corr_bad, mech = acc["prop_bad"], acc["corr_bad"], acc["mech"]
+    if acc["skipped_blocks"]:
+        ctx.notes.append("a failure was found in an earlier block; not run: " + "; ".join(acc["skipped_blocks"]))
 
     # ---- decision: property failures carry a concrete (shrunk) operation sequence
     seen = set()
@@ -569,6 +586,10 @@ def run(ctx):
         sline, sh = shrink(binary, line, key)
         if sh is None:
             sline, sh = line, h
+        else:
+            again = [p for p in classify(sline, sh, spec_line(sline), spec_line(sline)) if p[0] == "prop"]
+            if again:
+                what = again[0][2]
         ctx.violation(key, "any: %s — sequence: %s" % (what, " ".join(sline.split()[3:])[:300]),
                       {"harness": "h_any", "input_line": sline, "observed": sh[:3000], "expected": spec_line(sline)[:3000],
                        "found_as": line[:600], "sanitizer_log": log[-1500:]})
@@ -579,34 +600,30 @@ def run(ctx):
                       {"harness": "h_any", "correspondence": "BFL.AnyBox.step vs bfl::any::any", "input_line": line,
                        "observed": h[:3000], "model": d[:3000]}, no_input=True)
 
-    nontrivial = set()
-    for line in ran:
-        ops = line.split()[3:]
-        # non-trivial: at least two operations, one of which acts on a container that holds a value
-        if len(ops) >= 2 and any(o[:2] in ("ca", "aa", "av", "sw", "rs", "pk", "vc", "ds") for o in ops[1:]):
-            nontrivial.add(line)
-    ops_total = sum(len(l.split()) - 3 for l in ran)
+    complete = not acc["notrun"] and not acc["skipped_blocks"]
     ctx.coverage.update({
-        "evaluations": len(ran), "distinct_nontrivial": len(nontrivial),
-        "operations_executed": ops_total,
-        "exhaustive": not notrun and not (prop_bad or corr_bad),
+        "evaluations": acc["ran"], "distinct_nontrivial": len(acc["nontrivial"]), "distinct": len(acc["distinct"]),
+        "operations_executed": acc["ops"],
+        "exhaustive": bool(complete),
         "rule": "operation sequences on a pool of %d containers, every sequence started from the all-destroyed pool and ended by destroying "
                 "all containers (live probe count 0, net allocations 0, ASan/UBSan/LSan clean). Exhaustive parts: (1) full alphabet (every slot, "
                 "argument categories T&/const T&/T&&/const T&&, member and free swap, the four value-cast forms, pointer casts with mutable/const/"
                 "null operand, poke through the pointer form, all five held types): all %d sequences of valid operations of length 1..2; "
                 "(2) %s. Reduced alphabet = constructions only into the lowest destroyed slot (destroyed slots carry no state), categories const T&/T&& "
                 "for containers and T&/T&& for values, member swap with a<=b, casts any_cast<T>(any&) and any_cast<T&&>(any&&), poke, reset, destroy; "
-                "only operations valid in the current liveness state are enumerated. Sampled part: %d seeded random sequences of length 1..40 over "
-                "the full alphabet incl. 3%% operations on destroyed / out-of-pool slots, view of all slots after every operation. "
-                "non-trivial = at least two operations with a non-construction operation after the first; distinct = distinct case lines"
-                % (POOL, len(full2), "; ".join(exhaustive_rule), nrand_a + nrand_b),
-        "samples": [batch_a[len(corpus)][0], batch_a[len(corpus) + len(full2) + len(red3) // 2][0], batch_b[len(batch_b) // 2][0], batch_b[-1][0]],
-        "style_histogram": style_hist, "branch_histogram": dict(sorted(hist.items())),
-        "traces_validated_against_impl": len(ran),
-        "cases_not_run_after_crash_limit": notrun,
+                "only operations valid in the current liveness state are enumerated; each enumerated sequence is its own case (results and probe "
+                "count after every operation, full view of all slots after the last one; its prefixes are cases of their own). Sampled part: %d "
+                "seeded random sequences of length 1..40 over the full alphabet incl. 3%% operations on destroyed / out-of-pool slots, view of all "
+                "slots after every operation; plus %d corpus histories. non-trivial = at least two operations with a non-construction operation "
+                "after the first; distinct = distinct case lines (hashed)"
+                % (POOL, n_full2, "; ".join(rules), nrand_a + nrand_b, len(corpus)),
+        "samples": acc["samples"][:8],
+        "style_histogram": acc["style"], "branch_histogram": dict(sorted(hist.items())),
+        "traces_validated_against_impl": acc["ran"],
+        "cases_not_run_after_crash_limit": acc["notrun"],
         "model_vs_impl_disagreements": len(corr_bad), "property_failures_on_impl": len(prop_bad),
         "sanitizer_crashes": sum(1 for p in prop_bad if p[0].startswith("crash")),
-        "generation_s": round(tgen, 2),
+        "generation_s": round(acc["tgen"], 2), "harness_and_driver_s": round(acc["trun"], 2),
         "mechanism_only_differences": len(mech),
     })
     if mech:
@@ -618,6 +635,6 @@ def run(ctx):
                          "token %d implementation %s model %s" % (len(mech), line[:300], j, ht[j], dt[j]))
     ctx.assumptions += [
         "moved-from state of std::string (empty), Eigen::MatrixXd (0x0) and of the probe (id -1) as produced by libstdc++ / Eigen 3.4 / the harness",
-        "copy elision of the prvalue returned by the value forms of any_cast (g++ default): one copy construction per successful value cast",
         "operations on destroyed containers are undefined behaviour and are not executed on the implementation (both sides print inv)",
+        "exceptions thrown by the constructors of held types (bad_alloc, throwing copy constructors) are not modelled",
     ]
